@@ -333,6 +333,48 @@ func (g *Gen) authMalformed(k *saKeys, sender message.Role) ([]byte, string) {
 	}
 }
 
+// selfRefShortSK: a datagram header | SK payload whose body is SHORTER than the checksum and whose last icv octets —
+// which then reach back into the SK payload header — are nevertheless the truncated HMAC over everything before
+// them (found by searching Message IDs; the octets of the tail that are fixed by the format, the payload length and,
+// for the longest search, nothing else, have to come out of the HMAC by themselves).  body = icv-4 .. icv-1 octets.
+// nil if the search (2^19 tries) fails.
+func selfRefShortSK(g *Gen, k *saKeys, sender message.Role, body int) []byte {
+	_, ka := k.dirKeys(sender)
+	icv := refIntegOutLen[k.st.i]
+	if body < icv-4 || body >= icv || body < 0 {
+		return nil
+	}
+	total := 28 + 4 + body
+	msg := make([]byte, total)
+	g.r.Read(msg[:16])
+	msg[16], msg[17], msg[18], msg[19] = 46, 0x20, byte(g.pick(34, 35, 36, 37)), byte(g.pick(0, 8, 32, 40))
+	binary.BigEndian.PutUint32(msg[24:28], uint32(total))
+	msg[28], msg[29] = byte(g.pick(0, 33, 41, 43)), 0
+	binary.BigEndian.PutUint16(msg[30:32], uint16(4+body))
+	cut := total - icv // the checksum field as the receiver sees it: msg[cut:]
+	fixed := append([]byte{}, msg...)
+	m := hmac.New(refHash(k.st.i), ka)
+	for try := uint32(0); try < 1<<19; try++ {
+		binary.BigEndian.PutUint32(msg[20:24], try)
+		m.Reset()
+		m.Write(msg[:cut])
+		tag := m.Sum(nil)[:icv]
+		ok := true
+		for i := cut; i < 32 && ok; i++ { // tail octets inside the SK payload header
+			switch i {
+			case 30, 31: // payload length: has to be what the format says
+				ok = tag[i-cut] == fixed[i]
+			}
+		}
+		if ok {
+			copy(msg[cut:], tag)
+			msg[30], msg[31] = fixed[30], fixed[31]
+			return msg
+		}
+	}
+	return nil
+}
+
 // refOpenSK verifies, decrypts and splits a protected message.
 func refOpenSK(k *saKeys, sender message.Role, msg []byte) (*refSK, error) {
 	ke, ka := k.dirKeys(sender)
